@@ -1,9 +1,9 @@
 SPECIFICATION Spec
 CONSTANTS
   NW = 2
-  Family = "collect"
-  PeerCounts = {1, 2}
-  MaxChanges = 1
+  Family = "collect-quick"
+  PeerCounts = {1}
+  MaxChanges = 2
   Faithful = FALSE
   ShareIdentical = FALSE
   CachedDecide = TRUE
